@@ -118,10 +118,13 @@ func VerifC05_Sessions() {
 		verifapi.Assert(ok && a == net.Addr(addrs[i]), "C18: a session's address is the client_ip of the carrier that presented its ClientID - never another session's")
 	}
 	// downstream: one packet per session
+	out := []byte{0, 0x55} // the KCP layer recycles its transmit buffer across sessions
 	for i := 0; i < 2; i++ {
-		n, err := pconn.WriteTo([]byte{byte(0xD0 + i), 0x55}, verifSessionID(i))
+		out[0] = byte(0xD0 + i)
+		n, err := pconn.WriteTo(out, verifSessionID(i))
 		verifapi.Assert(err == nil && n == 2, "a downstream packet is accepted")
 	}
+	out[0] = 0xEE
 	verifapi.Quiesce()
 	for i := 0; i < 2; i++ {
 		o := carriers[i].out
